@@ -61,11 +61,16 @@ func UpdatePathAttrs2ByteAs(msg *bgp.BGPUpdate) {
 	mkAs4 := false
 	for _, param := range asAttr.Value {
 		segType := param.GetType()
+		isConfed := segType == bgp.BGP_ASPATH_ATTR_TYPE_CONFED_SEQ || segType == bgp.BGP_ASPATH_ATTR_TYPE_CONFED_SET
 		asList := param.GetAS()
 		as2Path := make([]uint16, 0, len(asList))
 		for _, as := range asList {
 			if as > 1<<16-1 {
-				mkAs4 = true
+				// confederation segments are excluded from AS4_PATH (below), so a
+				// 4-octet member of one cannot be the reason to build the attribute
+				if !isConfed {
+					mkAs4 = true
+				}
 				as2Path = append(as2Path, bgp.AS_TRANS)
 			} else {
 				as2Path = append(as2Path, uint16(as))
